@@ -152,10 +152,13 @@ func (s *strct) Parse(ctx *parseContext, parent reflect.Value) (out []reflect.Va
 	defer ctx.printTrace(s)()
 	sv := reflect.New(s.typ).Elem()
 	start := ctx.RawCursor()
+	// Captures already deferred belong to enclosing productions whose branch may
+	// still be abandoned; only this struct's own captures are applied here.
+	mark := len(ctx.apply)
 	t := ctx.Peek()
 	s.maybeInjectStartToken(t, sv)
 	if out, err = s.expr.Parse(ctx, sv); err != nil {
-		_ = ctx.Apply() // Best effort to give partial AST.
+		_ = ctx.ApplyFrom(mark) // Best effort to give partial AST.
 		ctx.MaybeUpdateError(err)
 		return []reflect.Value{sv}, err
 	} else if out == nil {
@@ -165,7 +168,7 @@ func (s *strct) Parse(ctx *parseContext, parent reflect.Value) (out []reflect.Va
 	t = ctx.RawPeek()
 	s.maybeInjectEndToken(t, sv)
 	s.maybeInjectTokens(ctx.Range(start, end), sv)
-	return []reflect.Value{sv}, ctx.Apply()
+	return []reflect.Value{sv}, ctx.ApplyFrom(mark)
 }
 
 func (s *strct) maybeInjectStartToken(token *lexer.Token, v reflect.Value) {
